@@ -96,15 +96,48 @@ example : findIdLoc ["import os, osx, os2 as os".toList] "os".toList (1, 0) 0 tr
     OccAt Generated.importDelims Generated.importEndDelims
       (window ["import os, osx, os2 as os".toList] 1) "os".toList true 23 := by decide
 
-/-- lint and location are projections of the same binding record -/
-theorem C11_same (b : Binding) (code msg : Str) :
-    (locationEntry b).loc = ((lintEntry code msg b).line, (lintEntry code msg b).col) ∧
-      (locationEntry b).file = b.filename :=
-  location_lint_same b code msg
+/-- lint and location report the same position for the same binding.  `lint` analyses the text as it is and reports
+    `b.declaredAt`; `location` analyses the text with the mark inserted at `cursor`, where the same binding stands at
+    `markedPos cursor b.declaredAt`, and un-shifts it: the two reports coincide (and the file is handed through) -/
+theorem C11_same (b : Binding) (cursor : Nat × Nat) (code msg : Str) :
+    (locationEntry b.filename cursor { b with declaredAt := markedPos cursor b.declaredAt }).loc =
+        ((lintEntry code msg b).line, (lintEntry code msg b).col) ∧
+      (locationEntry b.filename cursor { b with declaredAt := markedPos cursor b.declaredAt }).file = b.filename :=
+  ⟨unshift_markedPos b.filename cursor b.declaredAt b rfl, rfl⟩
 
-example : (locationEntry { name := "os".toList, declaredAt := (1, 7), filename := "m.py".toList }).loc = (1, 7) ∧
-    (lintEntry "W01".toList "unused: ".toList
-      { name := "os".toList, declaredAt := (1, 7), filename := "m.py".toList }).col = 7 := by decide
+-- `x = 1\n[nn for nn in x]`, cursor at (2, 3): the binding `nn` at (2, 8) is seen at (2, 21) and reported at (2, 8)
+example : markedPos (2, 3) (2, 8) = (2, 21) ∧
+    (locationEntry "m.py".toList (2, 3) { name := "nn".toList, declaredAt := (2, 21), filename := "m.py".toList }).loc = (2, 8) ∧
+    (lintEntry "W01".toList "Unused name: ".toList
+      { name := "nn".toList, declaredAt := (2, 8), filename := "m.py".toList }).col = 8 := by decide
+
+/-- the marked analysis sees a binding of the unmarked text `|MARK|` columns further right exactly when it lies on the
+    cursor's line at or right of the cursor column -/
+theorem C11_mark_shift (cursor p : Nat × Nat) :
+    markedPos cursor p = (p.1, p.2 + Generated.sourceMark.length) ∧ markedPos cursor p ≠ p ↔
+      p.1 = cursor.1 ∧ cursor.2 ≤ p.2 :=
+  markedPos_ne_iff cursor p
+
+example : markedPos (2, 3) (2, 3) = (2, 16) ∧ markedPos (2, 3) (2, 1) = (2, 1) ∧ markedPos (2, 3) (1, 8) = (1, 8) := by decide
+
+/-- ... which is what inserting the mark does to the text: from the cursor column on, the characters of the line stand
+    `|MARK|` columns further right; left of it nothing moves -/
+theorem C11_mark_text (line : Str) (col c : Nat) (hcol : col ≤ line.length) :
+    (col ≤ c → (markLine line col).drop (c + Generated.sourceMark.length) = line.drop c) ∧
+    (c ≤ col → (markLine line col).take c = line.take c) :=
+  ⟨markLine_drop line col c hcol, markLine_take line col c hcol⟩
+
+example : (markLine "[nn for nn in x]".toList 3).drop (8 + 13) = "nn in x]".toList := by decide
+
+/-- positions the mark does not move (another file, another line, left of or at the cursor) are reported as they are -/
+theorem C11_location_unmoved (f : Str) (cursor : Nat × Nat) (b : Binding)
+    (h : b.filename ≠ f ∨ b.declaredAt.1 ≠ cursor.1 ∨ b.declaredAt.2 ≤ cursor.2) :
+    (locationEntry f cursor b).loc = b.declaredAt :=
+  unshift_id f cursor b h
+
+example : (locationEntry "m.py".toList (2, 3) { name := "x".toList, declaredAt := (1, 0), filename := "m.py".toList }).loc = (1, 0) ∧
+    (locationEntry "m.py".toList (2, 3) { name := "j".toList, declaredAt := (2, 40), filename := "os.py".toList }).loc = (2, 40) := by
+  decide
 
 /-! ### the full-strength statement is FALSE of the code (open findings)
 
